@@ -34,7 +34,9 @@ def run(ctx, chk):
     chk.rule("C03.R1", "a zero divisor never reaches a division (zero test dominates Div/Rem)", floor=8)
     chk.rule("C03.R2", "signed division cannot overflow (MIN / -1)", floor=2)
     chk.rule("C03.R3", "no quotient is silently truncated: narrowing casts of Div results are lossless or guarded by a dividend test", floor=4)
-    chk.rule("C03.R4", "divisor 0 => Err, nothing modified; the action's Err arm returns INT(0) and stores nothing", floor=10)
+    # the four division helpers + every alternative of the production that calls them (however many the grammar has)
+    chk.rule("C03.R4", "divisor 0 => Err, nothing modified; the action's Err arm returns INT(0) and stores nothing",
+             floor=4 + max(2, len(G.productions("unary_arithmetic")) if "unary_arithmetic" in G.nts else 6))
     chk.rule("C03.R5", "driver: INT(0) ends the run without re-entering the interpreter", floor=1)
     chk.rule("C03.R6", "CF/OF of MUL/IMUL depend on both factors", floor=8)
     chk.rule("C03.R7", "frames of MUL/IMUL/DIV/IDIV and of the adjust instructions", floor=30)
@@ -353,8 +355,10 @@ def adjust_byte_frames(ctx, chk):
             if name in ("daa", "das"):
                 if all(ax.bits[i] == ("c", "ax", i) for i in range(8, 16)):
                     chk.ok("C03.R10", f"{name}:ah", "AH is an exact copy")
-                else:
+                elif any(ax.bits[i] in (0, 1) or (ax.bits[i][0] in ("c", "n") and ax.bits[i] != ("c", "ax", i)) for i in range(8, 16)):
                     chk.violation("C03.R10", name, "ah-modified", f"{name.upper()} changes AH; it adjusts AL only", where)
+                else:
+                    chk.undecided_("C03.R10", f"{name}:ah", "AH not tracked as an exact copy (a value of unknown shape was stored into AX)")
                 if lo & set(range(8, 16)):
                     chk.violation("C03.R10", name, "al-depends-on-ah", f"{name.upper()}: AL' depends on AH", where)
                 else:
